@@ -47,7 +47,12 @@ def main():
     states = {}
     tasks = {}
     try:
-        with experiment(ws, plan.get("name", "xp"), port=-1) as xp:
+        kw = {}
+        if plan.get("run_mode") == "generate":
+            from experimaestro.scheduler.workspace import RunMode
+
+            kw["run_mode"] = RunMode.GENERATE_ONLY  # job files are written, nothing is scheduled
+        with experiment(ws, plan.get("name", "xp"), port=-1, **kw) as xp:
             for k, v in plan.get("env", {}).items():
                 xp.workspace.launcher.setenv(k, v)
             tokens = [xp.workspace.connector.createtoken(t["name"], t["total"]) for t in plan.get("tokens", [])]
